@@ -8,7 +8,7 @@ EXPLANATION = ("Sufficient shape conditions for 'no lost update' and 'consistent
                "word holding (count, average) is modified only by compare_exchange inside atomic_compute (no store / swap / fetch_* anywhere in the crate, "
                "the non-atomic `split` view is written only by the constructor); (R19.2) in the CAS loop the *expected* operand is the very value the new "
                "word was computed from (new = join(computation(split(expected)))), every retry continues from the value the failed CAS returned or a fresh "
-               "atomic load, the loop is left only on the CAS's Ok edge, and the update closures are pure functions of (count, average) and by-value captures; "
+               "atomic load, split / computation / join all sit inside the loop (the new word is recomputed from the reloaded value on every attempt), the loop is left only on the CAS's Ok edge, and the update closures are pure functions of (count, average) and by-value captures; "
                "`inc` yields count+1; (R19.3) `probe` derives count and average from ONE atomic load, and no non-test library code reads the non-atomic "
                "split view (`lightweight_probe`, `_split`); (R19.4) pack/unpack are mutually inverse, proved by symbolic bit-vector evaluation of both bodies "
                "(split(join(c, a)) == (c, a) for all 2^64 inputs); (R19.5) the average update expression is algebraically identical, over exact rationals, to "
@@ -88,6 +88,23 @@ def check(ctx):
             vals = {s for s in srcs if s[0] != "callsite"}
             sites = {s for s in srcs if s[0] == "callsite"}
             ok = good and len(vals) == 1 and len(sites) == 1 and vals == {norm(strip_casts(exp))}
+            # ... and it is RE-computed on every iteration: split / computation / join all sit inside the CAS's loop and dominate the CAS, and the
+            # loop-carried value is not redefined between the split that reads it and the CAS that expects it (the expression DAG is flow-insensitive
+            # for a multiply-defined local, so `new` computed once before the loop from the first load looks the same in the DAG)
+            if ok:
+                hs_ = [h for h, bl in body.loops.items() if cb in bl]
+                stage_blocks = [b_ for (b_, c_) in body.calls if (c_.get("resolved") or c_.get("f")) in (M + "::split_joined", M + "::join_split")] + [x[1] for x in sites]
+                inside = bool(hs_) and all(any(b_ in body.loops[h] for h in hs_) and body.dominates(b_, cb) for b_ in stage_blocks)
+                el = strip_casts(exp)
+                redefined_between = False
+                if el[0] == "phi":
+                    splits = [b_ for (b_, c_) in body.calls if (c_.get("resolved") or c_.get("f")) == M + "::split_joined"]
+                    for d_ in body.defs.get(el[1], []):
+                        if d_[0] in body.reachable and any(body.dominates(sb_, d_[0]) and body.dominates(d_[0], cb) and d_[0] != sb_ for sb_ in splits): redefined_between = True
+                if not inside or redefined_between:
+                    ok = False
+                    why = ("the new word is not recomputed from the reloaded value on every iteration (split_joined / computation / join_split must sit inside the retry loop, "
+                           "before the CAS): after a collision the CAS would publish a word computed from a stale value -- the colliding update is lost")
             why = f"expected=`{show(exp)}` new=`{show(new)}`; required: new = join_split(computation(split_joined(expected))) with the same `expected`"
         ctx.ob("R19.2", f"{k}|expected-is-the-value-new-was-computed-from", ok, body.loc(cb), why)
         # retry value: every definition of the loop-carried local is an atomic load of the word or the Err payload of this CAS
